@@ -1,12 +1,31 @@
 // pricesim: deterministic simulator with seeded scheduling for the price cache (property C20).
 //
-//	pricesim run    --tier quick|thorough --seed <int> --evidence <path> --replays <dir> [--budget <seconds>] [--workers N] [--runs N] [--loghash] [--no-race]
-//	pricesim replay <file> [--repeat N]
+//	pricesim run    --tier quick|thorough --seed <int> --evidence <path> --replays <dir> [--budget <seconds>] [--workers N] [--runs N] [--loghash] [--no-race] [--blocked-after-ms F]
+//	pricesim replay <file> [--repeat N] [--blocked-after-ms F]
 //	pricesim stress --seed <int> --budget <seconds> [--runs N] [--repeat N]      (race binary: free-running goroutines)
 //	pricesim stressfile <file> [--repeat N]                                      (race binary)
 //
 // exit 0: property held on everything explored; 1: violation (stdout line "VIOLATION property=C20 replay=<path>");
 // 2: build/internal trouble, watchdog or inconclusive.
+//
+// Scheduling: client goroutines run the REAL cache code and are released one at a time; a released
+// client comes back at its next yield point (lib/simhook, build tag verif) or at the end of its
+// operation. If the code under test takes a lock at a place that has NO yield point in front of it
+// while a parked client holds that lock, the released client goes to sleep inside the real Lock
+// call. The scheduler notices this (after --blocked-after-ms of silence it looks at the goroutine
+// states; the classification itself is taken from a goroutine dump in which every client goroutine
+// of the process is parked or asleep, never from the elapsed time: sim/gstate.go), keeps the
+// client in a blocked set and goes on with the other clients; the sleeper continues by itself when
+// the holder unlocks and re-enters the scheduler at its next yield point. The outcome of every
+// release is part of the trace (replay file: "schedule" = released client ids, "blocked_steps" =
+// steps at which the released client was found asleep on such a lock) and replay expects exactly
+// that outcome. The watchdog (exit 2) is left for genuine simulator dead-locks; a dead-lock of the
+// code under test itself (every client asleep on a lock or waiting at its Lock point) is a
+// violation of kind "deadlock".
+//
+// Environment: PRICESIM_BLOCKED_AFTER_MS (default 20), PRICESIM_BLOCKED_CONFIRM_MS (default 2: first look
+// when the replayed trace expects a sleeper), PRICESIM_DISABLE_ORACLES (sensitivity self-tests only),
+// PRICESIM_DEBUG_SCHED (print the goroutine states behind every sleeper classification).
 package main
 
 import (
@@ -64,9 +83,11 @@ func cmdRun(args []string) int {
 	loghash := fs.Bool("loghash", false, "print a hash of the complete event log")
 	norace := fs.Bool("no-race", false, "skip the real-thread -race stress sub-run")
 	racebin := fs.String("race-bin", "", "path of the -race stress binary (default: pricesim-race next to this binary)")
+	blockedAfter := fs.Float64("blocked-after-ms", 0, "silence of a released client after which the scheduler looks at the goroutine states (default 20, env PRICESIM_BLOCKED_AFTER_MS)")
 	if err := fs.Parse(args); err != nil {
 		return 2
 	}
+	sim.SetBlockedAfter(time.Duration(*blockedAfter * float64(time.Millisecond)))
 	if *tier != "quick" && *tier != "thorough" {
 		fmt.Fprintln(os.Stderr, "pricesim: --tier must be quick or thorough")
 		return 2
@@ -102,6 +123,7 @@ func cmdReplay(args []string) int {
 	fs := flag.NewFlagSet("replay", flag.ContinueOnError)
 	repeat := fs.Int("repeat", 3000, "repetitions for a race-mode replay file")
 	racebin := fs.String("race-bin", "", "path of the -race stress binary")
+	blockedAfter := fs.Float64("blocked-after-ms", 0, "silence of a released client after which the scheduler looks at the goroutine states (default 20)")
 	var file string
 	if len(args) > 0 && len(args[0]) > 0 && args[0][0] != '-' {
 		file, args = args[0], args[1:]
@@ -109,6 +131,7 @@ func cmdReplay(args []string) int {
 	if err := fs.Parse(args); err != nil {
 		return 2
 	}
+	sim.SetBlockedAfter(time.Duration(*blockedAfter * float64(time.Millisecond)))
 	if file == "" && fs.NArg() > 0 {
 		file = fs.Arg(0)
 	}
